@@ -883,6 +883,49 @@ pub fn run(case: &Case, ctx: &mut Ctx) -> CaseOutcome {
             }
         }
     }
+    if prop == "C07" && out.violation.is_none() && case.index % 16 == 0 {
+        // clean through the real binary, with the stray -N flag in front of the subcommand
+        if let Some(r) = h.runs.iter().find(|r| r.label == "clean") {
+            tree::restore(&ctx.env.root, &r.before);
+            ctx.env.clear_run_vlog();
+            std::env::set_var("VLOG", &ctx.env.vlog);
+            let before = tree::snapshot(&ctx.env.root);
+            std::env::set_var("VERIF_CLI_STRAY_N", "1");
+            let code = super::fault::run_cli(&ctx.env.root, &r.cfg);
+            std::env::set_var("VERIF_CLI_STRAY_N", "0");
+            if let Some(code) = code {
+                let after = tree::snapshot(&ctx.env.root);
+                ctx.stats.count("c07.cli_clean_runs");
+                let pb = tree::to_project(&before);
+                let a = analyze(&pb);
+                let n_vlog = std::fs::read_dir(&ctx.env.vlog).map(|d| d.count()).unwrap_or(0);
+                if n_vlog > 0 {
+                    out.violate("C07", "clean-executed-command", format!("[cli -N clean, exit {code}] run commands were executed"));
+                }
+                if let Resolved::Sources(named) = gen::r_inputs(&pb, &a, &r.cfg.base, &r.cfg.inputs, r.cfg.recursive) {
+                    if code != 0 {
+                        out.violate("C07", "clean-failed", format!("[cli -N clean] exit {code}"));
+                    }
+                    for i in &named {
+                        for g in a.sources[*i].generated() {
+                            if matches!(after.get(&g), Some(Node::File { .. })) {
+                                out.violate(
+                                    "C07",
+                                    "leftover-after-clean/named-source",
+                                    format!("[cli -N clean, exit {code}] left {g}, generated by the named source {}", a.sources[*i].path),
+                                );
+                            }
+                        }
+                    }
+                }
+                for (p, ch) in tree::diff(&before, &after) {
+                    if ch == Change::Created {
+                        out.violate("C07", "clean-created-file", format!("[cli -N clean] created {p}"));
+                    }
+                }
+            }
+        }
+    }
     if prop == "C06" && out.violation.is_none() && case.index % 16 == 0 {
         // verify through the real binary, with the stray -N flag: same verdict, outputs untouched
         if let Some(r) = h.runs.iter().rev().find(|r| r.cfg.mode == ModeS::Verify) {
